@@ -135,6 +135,12 @@ class DictDecoder:
                 continue
 
             if var.wrapper:
+                if not isinstance(value, dict) or var.local_name not in value:
+                    raise ParserError(
+                        f"Unknown property {clazz.__qualname__}.{key}, "
+                        f"expected wrapper {var.wrapper}"
+                    )
+
                 value = value[var.local_name]
 
             value = self.bind_value(meta, var, value)
@@ -246,7 +252,10 @@ class DictDecoder:
         """
         # xs:anyAttributes get it out of the way, it's the mapping exception!
         if var.is_attributes:
-            return dict(value)
+            try:
+                return dict(value)
+            except (TypeError, ValueError) as e:
+                raise ParserError(e)
 
         # Repeating element, recursively bind the values
         if not recursive and var.list_element and collections.is_array(value):
